@@ -22,16 +22,29 @@ TIERS = {'quick': {'cases': 2500, 'size': 300},
          'thorough': {'cases': 60000, 'size': 400}}
 
 
-def deliver(sc, chunks):
+def deliver(sc, chunks, reuse=None):
     """Feed the chunks without reading the output in between (a received GOAWAY discards bytes the
     application has not read yet, so reading between chunks would itself change the result)."""
     ep = sc.endpoint()
     c = ep.c
     events = []
     err = None
+    buf = bytearray(max([len(x) for x in chunks] + [1])) if reuse else None
     for chunk in chunks:
         try:
-            evs = c.receive_data(chunk)
+            if reuse:
+                # a receive loop of the recv_into() kind: one buffer, refilled for every call; what the library
+                # has not consumed yet must not live in the caller's buffer
+                if reuse == 'memoryview':
+                    buf[:len(chunk)] = chunk
+                    evs = c.receive_data(memoryview(buf)[:len(chunk)])
+                    buf[:] = b'\xee' * len(buf)
+                else:
+                    ba = bytearray(chunk)
+                    evs = c.receive_data(ba)
+                    ba[:] = b'\xee' * len(ba)      # the caller recycles its buffer afterwards
+            else:
+                evs = c.receive_data(chunk)
         except Exception as e:   # noqa: BLE001 - classified by the comparison
             code = getattr(e, 'error_code', None)
             err = (type(e).__name__, int(code) if code is not None else None)
@@ -78,8 +91,11 @@ def run_case(data):
            'labels', sorted(sc.labels), 'base-error', base[2], stream)
     nframes = len(bounds) - 1
     r.evals = 0
+    reuse = ch.pick([None, None, None, 'memoryview', 'bytearray'])
+    if reuse:
+        r.labels.add('chunks-in-a-reused-' + reuse)
     for cuts in cutsets:
-        got = deliver(sc, bytesgen.split(stream, cuts))
+        got = deliver(sc, bytesgen.split(stream, cuts), reuse)
         r.evals += 1
         if got[2] != base[2]:
             r.violate('C21:error-differs:oneshot=%s:chunked=%s' % (base[2], got[2]), 'cuts %r' % (cuts[:6],))
